@@ -150,3 +150,68 @@ package fzf
 //@ modifies h.cursor
 //@ ensures h.cursor == (old(h.cursor) < len(h.lines) - 1 ? old(h.cursor) + 1 : old(h.cursor)) && validHistory(h)
 //@ ensures maphas(h.modified, h.cursor) ? samestr(result, mapget(h.modified, h.cursor)) : samestr(result, h.lines[h.cursor])
+
+// ---------------------------------------------------------------- ANSI escape sequences
+//@ spec func isParamCh(c byte) bool = (48 <= c && c <= 57) || c == 59 || c == 58 || c == 63
+//@ spec func isFinalCh(c byte) bool = (97 <= c && c <= 122) || (65 <= c && c <= 90) || c == 64
+// mcs(s, i): where the CSI body `[0-9;:?]*[a-zA-Z@]` scanned from i ends (-1 if it is not of that shape)
+//@ spec func mcs(s string, i int) int = i >= len(s) ? -1 : (isParamCh(s[i]) ? mcs(s, i + 1) : (isFinalCh(s[i]) ? i + 1 : -1)) decreases len(s) - i
+// prs(s, i): first index >= i that does not hold a printable character
+//@ spec func prs(s string, i int) int = (i < len(s) && 32 <= s[i] && s[i] <= 126) ? prs(s, i + 1) : i decreases len(s) - i
+
+//@ func isPrint
+//@ property C11
+//@ ensures result == (32 <= c && c <= 126)
+
+//@ func isNumeric
+//@ property C11
+//@ ensures result == (48 <= char && char <= 57)
+
+//@ func isCtrlSeqStart
+//@ property C11
+//@ ensures result == (c == 92 || c == 91 || c == 40 || c == 41)
+
+//@ func matchControlSequence
+//@ property C11
+//@ ensures result == mcs(s, 2)
+//@ ensures result != -1 ==> 3 <= result && result <= len(s)
+//@ loop 1
+//@   invariant 2 <= i && mcs(s, 2) == mcs(s, i)
+//@   decreases len(s) - i
+
+// OSC body: printable characters up to the terminator BEL or ESC \ ; the bare hyperlink closer ESC ] 8 ; ; ESC is accepted too
+//@ func matchOperatingSystemCommand
+//@ property C11
+//@ requires 0 <= start && start <= len(s)
+//@ ensures result == -1 || (start < result && result <= len(s))
+//@ ensures result != -1 ==> forall(k, start, prs(s, start), 32 <= s[k] && s[k] <= 126)
+//@ ensures result != -1 ==> (s[result-1] == 7 && result == prs(s, start) + 1) || (s[result-1] == 92 && s[result-2] == 27 && result == prs(s, start) + 2) || (s[result-1] == 27 && result == prs(s, start) + 1 && result == 6)
+//@ ensures prs(s, start) < len(s) && s[prs(s, start)] == 7 ==> result == prs(s, start) + 1
+//@ loop 1
+//@   invariant start <= i && i <= len(s) && prs(s, start) == prs(s, i) && forall(k, start, i, 32 <= s[k] && s[k] <= 126)
+//@   decreases len(s) - i
+
+//@ spec func isTrig(c byte) bool = c == 14 || c == 15 || c == 27 || c == 8
+// dud(s, k): the byte at k neither starts nor ends an escape sequence (ESC at the very end or before a
+// newline, BS at the very start or after a newline, or any other byte)
+//@ spec func dud(s string, k int) bool = s[k] != 14 && s[k] != 15 && (s[k] == 27 ==> (k + 1 >= len(s) || s[k+1] == 10)) && (s[k] == 8 ==> (k == 0 || s[k-1] == 10))
+
+// Result (-1,-1): nothing in s starts a sequence (so text without control characters is untouched).
+// Otherwise [r0,r1) is the leftmost sequence and has one of the documented shapes; its end is the
+// sequence's own terminator, so it never swallows text that follows.
+//@ func nextAnsiEscapeSequence
+//@ property C11
+//@ ensures (r0 == -1 && r1 == -1) || (0 <= r0 && r0 < r1 && r1 <= len(s))
+//@ ensures r0 == -1 ==> forall(k, 0, len(s), dud(s, k))
+//@ ensures r0 >= 0 ==> (s[r1-1] == 8 && r1 >= 2 && s[r1-2] != 10 && r1 - r0 <= 5 && forall(k, 0, r1 - 1, dud(s, k))) || ((s[r0] == 14 || s[r0] == 15) && r1 == r0 + 1 && forall(k, 0, r0, dud(s, k))) || (s[r0] == 27 && r0 + 1 < len(s) && s[r0+1] != 10 && forall(k, 0, r0, dud(s, k)))
+//@ ensures r0 >= 0 && s[r0] == 27 && s[r1-1] != 8 && r0 + 2 < len(s) && (s[r0+1] == 92 || s[r0+1] == 91 || s[r0+1] == 40 || s[r0+1] == 41) && mcs(s[r0:], 2) != -1 ==> r1 == r0 + mcs(s[r0:], 2)
+//@ ensures r0 >= 0 && s[r0] == 27 && s[r1-1] != 8 ==> r1 - r0 <= 5 || ((s[r0+1] == 92 || s[r0+1] == 91 || s[r0+1] == 40 || s[r0+1] == 41) && r1 == r0 + mcs(s[r0:], 2)) || (s[r0+1] == 93 && (s[r1-1] == 7 || (s[r1-1] == 92 && s[r1-2] == 27) || s[r1-1] == 27))
+//@ loop 1
+//@   invariant 0 <= i && i <= len(s) && forall(k, 0, i, !isTrig(s[k]))
+//@   decreases len(s) - i
+//@ loop 2
+//@   invariant 0 <= i && i <= len(s) && forall(k, 0, i, dud(s, k))
+//@   decreases len(s) - i
+//@ loop 3
+//@   invariant 2 <= j && i + j <= len(s) && 0 <= i && i + 5 < len(s) && s[i] == 27 && s[i+1] == 93
+//@   decreases len(s) - i - j
